@@ -331,6 +331,71 @@ fn exact_fit_sweep(seed: u64, variant: u64, base: &str, st: &mut ReplyStats) {
     }
 }
 
+/// Dense sweep of SMALL budgets (every byte from 100 to 700): a handful of members whose deltas are mostly a node
+/// header followed by a lone "max version" op (everything written was deleted and collected) or by one or two tiny
+/// entries. Blocks this small are stored raw, so every miscounted byte of an op shows as budget + 1.
+fn small_budget_sweep(seed: u64, variant: u64, st: &mut ReplyStats) {
+    let mut rng = rng_from(mix3(seed, variant, 0x5B5));
+    let mut s = mk_node(simple_id("sender", 7000), &NodeOpts::default());
+    let n_members = 1 + (variant % 6) as usize;
+    for m in 0..n_members {
+        // even variants: nothing in the block repeats (random ids, generations and versions), so that it is stored raw
+        let hi = variant % 2 == 0;
+        let name = if hi {
+            let l = rng.random_range(1..60);
+            (0..l).map(|_| b"0123456789abcdefghijklmnopqrstuvwxyzABCDEFGHIJKLMNOPQRSTUVWXYZ"[rng.random_range(0..62)] as char).collect()
+        } else if variant % 5 == 4 {
+            format!("member-with-a-longer-name-{m:04}")
+        } else {
+            format!("m{m}")
+        };
+        let a: SocketAddr = if hi {
+            format!("{}.{}.{}.{}:{}", rng.random_range(1..255), rng.random_range(0..255), rng.random_range(0..255), rng.random_range(1..255), rng.random_range(1024..65535)).parse().unwrap()
+        } else if m % 2 == 0 {
+            addr(8100 + m as u16)
+        } else {
+            format!("[2001:db8::{:x}]:{}", m + 1, 8100 + m).parse().unwrap()
+        };
+        let id = mk_wid(&name, if hi { rng.random::<u64>() } else { m as u64 % 2 }, a);
+        if hi && rng.random_bool(0.7) {
+            // all entries collected long ago: watermark and max version are large unrelated numbers
+            let gc = rng.random::<u64>() >> 2;
+            let maxv = gc + (rng.random::<u64>() >> 3);
+            install_member(&mut s.cc, "c", &id, 1 + m as u64, gc, &[], maxv).expect("install");
+            continue;
+        }
+        let nk = rng.random_range(0..3u64);
+        let mut kvs = vec![];
+        for k in 0..nk {
+            let st_ = [0u8, 1, 2][rng.random_range(0..3)];
+            let v: String = if st_ == 1 { String::new() } else { "v".repeat(rng.random_range(0..12)) };
+            kvs.push((format!("k{k}"), v, k + 1, st_));
+        }
+        // half of the members: everything collected (watermark at the last write), only the max version is left to tell
+        let all_collected = rng.random_bool(0.5);
+        let gc = if all_collected { nk + rng.random_range(0..3) } else { 0 };
+        let kvs: Vec<_> = kvs.into_iter().filter(|kv| kv.2 > gc).collect();
+        let maxv = gc.max(nk) + rng.random_range(0..3);
+        install_member(&mut s.cc, "c", &id, 1 + m as u64, gc, &kvs, maxv).expect("install");
+    }
+    if variant % 3 == 0 {
+        s.cc.self_node_state().set("a", "1");
+    }
+    for mode in 0..3u8 {
+        // mode 0: the peer knows nobody (resets / from 0); otherwise mixed, incl. "same watermark, one version behind"
+        let d: Vec<WDigestEntry> = if mode == 2 {
+            let mut d: Vec<WDigestEntry> = s.cc.node_states().iter().map(|(id, ns)| WDigestEntry { id: wid(id), heartbeat: 1, last_gc: ns.last_gc_version(), max_version: ns.max_version().saturating_sub(1).max(ns.last_gc_version().min(ns.max_version())) }).collect();
+            d.push(WDigestEntry { id: mk_wid("peer", 0, addr(7999)), heartbeat: 3, last_gc: 0, max_version: 2 });
+            d
+        } else {
+            random_peer_digest(&mut rng, &s.cc, mode)
+        };
+        let budgets: Vec<usize> = (100..=700).collect();
+        exercise_budgets(&s, &d, &budgets, st, &format!("small-budget variant {variant} digest-mode {mode}"));
+        st.c.add("small_budget_points", budgets.len() as u64);
+    }
+}
+
 fn run_c07_case(seed: u64, i: u64, base: &str, rt: &tokio::runtime::Runtime) -> ReplyStats {
     let mut st = ReplyStats { findings: vec![], c: Counters::default(), sample: None, hashes: vec![] };
     let mut rng = rng_from(mix3(seed, i, 0xC07));
@@ -375,13 +440,18 @@ pub fn check_c07(args: &Args) -> Outcome {
     let n = args.n(3_000, 200_000);
     let nfit = args.n(240, 6_000);
     let seed = args.seed;
-    let res = par_run(n + nfit, args.threads, |i| {
+    let nsmall = args.n(60, 3_000);
+    let res = par_run(n + nfit + nsmall, args.threads, |i| {
         if deadline.expired() {
             return None;
         }
         let rt = paused_rt();
         let _g = rt.enter();
-        if i < nfit {
+        if i >= n + nfit {
+            let mut st = ReplyStats { findings: vec![], c: Counters::default(), sample: None, hashes: vec![] };
+            small_budget_sweep(seed, i - n - nfit, &mut st);
+            Some(st)
+        } else if i < nfit {
             let mut st = ReplyStats { findings: vec![], c: Counters::default(), sample: None, hashes: vec![] };
             exact_fit_sweep(seed, i, &base, &mut st);
             Some(st)
@@ -431,8 +501,8 @@ pub fn check_c07(args: &Args) -> Outcome {
             }
         }
     }
-    if done < n + nfit {
-        ev.inconclusive.push(format!("wall-clock watchdog: {} of {} cases not generated", n + nfit - done, n + nfit));
+    if done < n + nfit + nsmall {
+        ev.inconclusive.push(format!("wall-clock watchdog: {} of {} cases not generated", n + nfit + nsmall - done, n + nfit + nsmall));
     }
     // every reply of whole simulated clusters (members crash, are scheduled for deletion and removed there)
     let e1 = crate::e1::run_e1(args, "C07", &deadline);
@@ -442,7 +512,7 @@ pub fn check_c07(args: &Args) -> Outcome {
     ev.extra.insert("cases".into(), json!(ev.evaluations));
     ev.extra.insert("e1_traces".into(), json!(e1.traces));
     ev.evaluations = ev.counters.get("messages_checked") + ev.counters.get("budgeted_deltas") + ev.counters.get("datagrams_emitted");
-    ev.rule = "case = seeded sender state (0-40 members, 0-300 keys, value lengths incl. 16,383..16,385 / 32,768 / 40-65 KB, payload classes constant / english / printable / 7-bit / near-incompressible UTF-8) x 3 peer digests x {SYN-ACK, ACK, 18 budgets}; exact-fit sweeps re-write the last key byte by byte (+-40) around the length where it stops fitting; distinct = distinct emitted byte strings (hash); all are non-trivial (each is a reply computed by the real code and parsed by the independent decoder)".into();
+    ev.rule = "case = seeded sender state (0-40 members, 0-300 keys, value lengths incl. 16,383..16,385 / 32,768 / 40-65 KB, payload classes constant / english / printable / 7-bit / near-incompressible UTF-8) x 3 peer digests x {SYN-ACK, ACK, 18 budgets}; exact-fit sweeps re-write the last key byte by byte (+-40) around the length where it stops fitting; small-budget sweeps try every budget 100..700 on members whose delta is a header plus a lone max-version op or tiny entries; distinct = distinct emitted byte strings (hash); all are non-trivial (each is a reply computed by the real code and parsed by the independent decoder)".into();
     ev.assumptions = vec!["own digest leaves >= 100 bytes (enforced by the generators)".into(), "zstd treated as a black box; only framing is independently decoded".into()];
     let nothing = ev.counters.get("messages_checked") == 0;
     Outcome { evidence: ev, violations, nothing_observed: nothing }
